@@ -404,6 +404,16 @@ class LogNormalizerExact(NativeReplay, Contract):
                     continue
                 yield "dim=%d,rank=%d" % (dim, rank), (dim, rank, ())
         yield "dim=1,rank=2,batch=2", (1, 2, (2,))
+        yield "dim=2,rank=1: must raise", (2, 1, ())
+
+    def may_raise(self, ctx, etype):
+        import z3
+
+        dim, rank, batch = ctx.st
+        return z3.BoolVal(rank < dim and etype in ("AssertionError", "LinAlgError", "ValueError"))
+
+    def allow_vacuous(self, st):
+        return st[1] < st[0]
 
     def native(self, ctx, st):
         dim, rank, batch = st
@@ -427,6 +437,8 @@ sys.exit(0 if ok else 1)
     def ensures(self, ctx, result):
         dim, rank, batch = ctx.st
         T, a = ctx.T, ctx.a
+        if rank < dim:
+            return [("too_little_information_raises_instead_of_returning", False)]
         res = np.asarray(result, dtype=object)
         if res.shape != batch:
             return [("one_value_per_batch_element", False)]
@@ -471,6 +483,7 @@ class MarginalizeExact(NativeReplay, Contract):
     mutants = (
         ("kept and reduced rows swapped", "            prec_sqrt_a = self.prec_sqrt[..., a, :]\n            prec_sqrt_b = self.prec_sqrt[..., b, :]", "            prec_sqrt_a = self.prec_sqrt[..., b, :]\n            prec_sqrt_b = self.prec_sqrt[..., a, :]"),
         ("factor of the whole precision instead of the reduced block", "            precision_chol_b = ops.cholesky(_mmt(prec_sqrt_b))  # assume full rank", "            precision_chol_b = ops.cholesky(_mmt(self.prec_sqrt))[..., : prec_sqrt_b.shape[-2], : prec_sqrt_b.shape[-2]]"),
+        ("the information check compares with the kept block", "            if self.rank < dim_b:", "            if self.rank < prec_sqrt_a.shape[-2]:"),
     )
 
     def native(self, ctx, st):
@@ -523,6 +536,9 @@ sys.exit(0 if report(got, want, 'marginal at the kept point:') else 1)
             yield "inputs=%s,reduced=%s,rank=%d" % (lay, red, rank), (lay, red, rank, "partial")
         yield "inputs=x1y1,reduced=all,rank=2", ("x1y1", "xy", 2, "all")
         yield "inputs=i,x1y1,reduced=y+i,rank=2", ("x1y1", "y", 2, "ints")
+        # too little information: the reduced block has more dimensions than the factor has columns -> ValueError, not a number
+        yield "inputs=x1y2,reduced=y,rank=1: must raise", ("x1y2", "y", 1, "deficient")
+        yield "inputs=x1y1z1,reduced=xz,rank=1: must raise", ("x1y1z1", "xz", 1, "deficient")
 
     def build(self, p, st):
         lay, red, rank, mode = st
@@ -541,9 +557,20 @@ sys.exit(0 if report(got, want, 'marginal at the kept point:') else 1)
         rv = frozenset(red) | (frozenset("i") if mode == "ints" else frozenset())
         return Ctx(args=(g, ops.logaddexp, rv), namespace=ns, T=T, a=a, st=st, g=g, ops=ops, keep=keep)
 
+    def may_raise(self, ctx, etype):
+        import z3
+
+        # a formula (not the constant True): the exceptional exit of the deficient structures is a counted obligation
+        return z3.BoolVal(ctx.st[3] == "deficient" and etype == "ValueError")
+
+    def allow_vacuous(self, st):
+        return st[3] == "deficient"
+
     def ensures(self, ctx, result):
         lay, red, rank, mode = ctx.st
         T, a, g = ctx.T, ctx.a, ctx.g
+        if mode == "deficient":
+            return [("too_little_information_raises_instead_of_returning", False)]
         if mode == "all":
             ok = isinstance(result, TensorR) and not result.inputs and lin_same(as_scalar(result.data), log_normalizer_spec(T, a["P"], a["w"]))
             return [("all_reals_reduced_gives_the_log_normalizer", bool(ok))]
